@@ -91,6 +91,7 @@ struct MtOutcome {
     pdus: u64,
     wall_ms: u64,
     timed_out: bool,
+    max_lag_ms: u64,
 }
 
 struct MtTransfer {
@@ -110,6 +111,21 @@ fn run_mt(scratch: &str, cfg: EntityConfig, transfers: &[MtTransfer], slow_ms: u
     }
     let rt = tokio::runtime::Builder::new_multi_thread().worker_threads(4).enable_all().build().expect("runtime");
     let t0 = Instant::now();
+    // stall detector: an OS thread that sleeps 25 ms at a time and records by how much it overslept. The
+    // verdicts of this lane depend on the wall clock; a run during which the machine stalled is not judged.
+    let stop = Arc::new(std::sync::atomic::AtomicBool::new(false));
+    let max_lag = Arc::new(std::sync::atomic::AtomicU64::new(0));
+    let lag_thread = {
+        let (stop, max_lag) = (stop.clone(), max_lag.clone());
+        std::thread::spawn(move || {
+            while !stop.load(std::sync::atomic::Ordering::Relaxed) {
+                let a = Instant::now();
+                std::thread::sleep(Duration::from_millis(25));
+                let over = a.elapsed().as_millis().saturating_sub(25) as u64;
+                max_lag.fetch_max(over, std::sync::atomic::Ordering::Relaxed);
+            }
+        })
+    };
     let sent = Arc::new(Mutex::new(0u64));
     let inds: Arc<Mutex<Vec<(usize, Indication)>>> = Arc::new(Mutex::new(vec![]));
     let n_tr = transfers.len();
@@ -174,9 +190,12 @@ fn run_mt(scratch: &str, cfg: EntityConfig, transfers: &[MtTransfer], slow_ms: u
         (ids, timed_out)
     });
     rt.shutdown_timeout(Duration::from_millis(200));
+    stop.store(true, std::sync::atomic::Ordering::Relaxed);
+    let _ = lag_thread.join();
+    let max_lag_ms = max_lag.load(std::sync::atomic::Ordering::Relaxed);
     let dests = (0..n_tr).map(|k| std::fs::read(format!("{}/dst{}.bin", roots[1 - transfers[k].src], k)).ok()).collect();
     let pdus = *sent.lock().unwrap();
-    let out = MtOutcome { inds: std::mem::take(&mut *inds.lock().unwrap()), ids, dests, pdus, wall_ms: t0.elapsed().as_millis() as u64, timed_out };
+    let out = MtOutcome { inds: std::mem::take(&mut *inds.lock().unwrap()), ids, dests, pdus, wall_ms: t0.elapsed().as_millis() as u64, timed_out, max_lag_ms };
     for r in &roots {
         let _ = std::fs::remove_dir_all(r);
     }
@@ -189,7 +208,7 @@ pub fn run_c11mt(tier: &str, seed: u64, replay: Option<&str>) -> (Meta, Report) 
         level: "exploration",
         rule: "real-time lane: two real daemons on a 4-worker multi-thread tokio runtime, real clock, loss-free in-memory link, receiving filestore whose staging-file creation blocks for 100-400 ms; one file of 150-600 segments plus two small transfers (one in the opposite direction, one unacknowledged) started together, so that the daemon forwards PDUs faster than the receive transaction consumes them. Oracle on outcomes only: every Put answered, exactly one Finished per transaction and entity, success with the transfer's own bytes, no Fault / Abandon indication on a loss-free link. distinct_nontrivial = distinct (sizes, delay) scenarios completed.".into(),
         exhaustive: false,
-        assumptions: vec!["a scenario that does not finish within 40 s of wall time is inconclusive, not a violation".into(), "timers are 4 s x limit 2: a fault on this loss-free link would need an 8 s stall of the machine".into()],
+        assumptions: vec!["a scenario that does not finish within 40 s of wall time is inconclusive, not a violation".into(), "timers are 4 s x limit 2: a fault on this loss-free link would need an 8 s stall of the machine; a run during which an OS thread sleeping 25 ms at a time overslept by more than 1 s is repeated (3 attempts) and otherwise inconclusive".into()],
         require: vec![("c11mt_scenarios_completed".into(), 3)],
         extra: vec![],
     };
@@ -244,8 +263,17 @@ pub fn run_c11mt(tier: &str, seed: u64, replay: Option<&str>) -> (Meta, Report) 
                     MtTransfer { src: 0, mode: TransmissionMode::Unacknowledged, content: mk(&mut rng, 2 * seg as usize, 3) },
                 ];
                 let case = format!("C11mt:mt:{}:{}", i, seed);
-                let out = run_mt(&scratch, cfg, &transfers, slow, 9_000);
+                // a run during which the machine stalled for more than a second (or that did not finish in
+                // time) is repeated, up to three times, before it is given up as inconclusive
+                let mut out = run_mt(&scratch, cfg.clone(), &transfers, slow, 9_000);
+                let mut attempts = 1;
+                while (out.timed_out || out.max_lag_ms > 1000) && attempts < 3 {
+                    rep.count("c11mt_runs_repeated(machine stalled)");
+                    out = run_mt(&scratch, cfg.clone(), &transfers, slow, 9_000);
+                    attempts += 1;
+                }
                 rep.eval();
+                rep.add("c11mt_max_scheduling_lag_ms(sum)", out.max_lag_ms);
                 rep.add("c11mt_pdus_exchanged", out.pdus);
                 let desc = format!("long file {} segments of {} bytes, receiver staging-file delay {} ms, {} PDUs, {} ms wall", nseg, seg, slow, out.pdus, out.wall_ms);
                 let trace = |out: &MtOutcome| -> String {
@@ -264,6 +292,10 @@ pub fn run_c11mt(tier: &str, seed: u64, replay: Option<&str>) -> (Meta, Report) 
                 };
                 if out.timed_out {
                     rep.inconclusive("scenario did not finish within 40 s of wall time", &case);
+                    continue;
+                }
+                if out.max_lag_ms > 1000 {
+                    rep.inconclusive("the machine stalled for more than 1 s during the run (wall-clock verdicts not taken)", &case);
                     continue;
                 }
                 rep.count("c11mt_scenarios_completed");
